@@ -12,7 +12,7 @@ use tree_sitter::{Parser, Query, QueryCursor, QueryErrorKind, Tree};
 pub fn meta(tier: &str) -> CheckMeta {
     CheckMeta {
         id: "C05", level: "model_checking",
-        rule: "E-box over queries x trees. Query family (enumerated completely from a pattern AST, per language stmts/arith/jsonish): root in {3-4 named kinds, (_), _, anonymous, (ERROR), (MISSING), (MISSING kind), (MISSING \"tok\"), supertype, supertype/subtype}; 0..2 child patterns each in {named kinds, (_), _, anonymous, extra (comment), nested one-child pattern}; optional field per child; negated field; anchors in every slot (. a, a . b, a .); one alternation in a child slot; one quantifier in {?,*,+} on a child; a capture on every pattern node. Trees: seeds + all strings of <=2 lexemes (valid and erroneous) + trees after one edit and re-parse. Oracle: an independent backtracking matcher over the explicit tree, written from the query documentation. Soundness for every query: each returned match is one of the reference bindings. Completeness for quantifier-free patterns: the returned bindings equal the reference set, each exactly once. Compile time: a rejected pattern carries an error offset <= source length, and no rejected pattern has a reference match in an error-free tree. Non-trivial = (query, tree) pairs with at least one reference match.",
+        rule: "E-box over queries x trees. Query family (enumerated completely from a pattern AST, per language stmts/arith/jsonish): root in {3-4 named kinds, (_), _, anonymous, (ERROR), (MISSING), (MISSING kind), (MISSING \"tok\"), supertype, supertype/subtype}; 0..2 child patterns each in {named kinds, (_), _, anonymous, extra (comment), nested one-child pattern}; optional field per child; negated field; anchors in every slot (. a, a . b, a .); one alternation in a child slot; one quantifier in {?,*,+} on a child; a capture on every pattern node. Trees: seeds + all strings of <=2 lexemes (valid and erroneous) + trees after one edit and re-parse. Oracle: an independent backtracking matcher over the explicit tree, written from the query documentation. Soundness for every query: each returned match is one of the reference bindings. Completeness for quantifier-free patterns: the returned bindings equal the reference set, each exactly once. Compile time: a rejected pattern carries an error offset <= source length, and no rejected pattern has a reference match in an error-free tree. Alternations of two and three branches in every anchored slot (alone, first and last of two children, all anchor masks). Non-trivial = (query, tree) pairs with at least one reference match.",
         assumptions: vec!["anchors adjacent to anonymous/wildcard child patterns and to quantified patterns are outside the asserted family (the documentation leaves them open)".into()],
         exhaustive: true,
         bounds: json!({"tier": tier, "max_children": 2, "tree_doc_lexemes": if tier == "thorough" { 3 } else { 2 }, "queries": "the whole family in both tiers"}),
